@@ -120,7 +120,7 @@ def check_graph(p, ch, und, A):
     # triples for the wide graphs)
     if p <= 5:
         masks = range(1 << p)
-    elif p > 10:    # 70-node graphs: every subset of size <= 3 of the nodes that carry an edge (plus node 0), the empty and the full set
+    elif p != _g.WIDE_P:    # 70-node graphs and long paths: every subset of size <= 3 of the nodes that carry an edge (plus node 0), the empty and the full set
         act = sorted(set([0] + [i for i in range(p) if adjm[i]]))
         masks = [0, (1 << p) - 1] + [sum(1 << i for i in c) for k in (1, 2, 3) for c in itertools.combinations(act, k)]
     else:
@@ -177,7 +177,8 @@ def run_unit(unit):
         return acc.out()
     if unit["stage"] == "big":
         p = _g.BIG_P
-        for k, (name, ch, und) in enumerate(_g.big_graphs()):
+        fam = [(n_, _g.BIG_P, c_, u_) for n_, c_, u_ in _g.big_graphs()] + _g.path_graphs()
+        for k, (name, p, ch, und) in enumerate(fam):
             for lab in ("pdag",) + (() if any(und) else ("generic", "tiny")):
                 A = _g.pdag_matrix(p, ch, und) if lab == "pdag" else _g.np_dag(p, ch, lab)
                 fails, n = check_graph(p, ch, und, A)
@@ -224,9 +225,9 @@ def run_unit(unit):
 
 def replay(kind, case):
     if kind == "big":
-        name, ch, und = _g.big_graphs()[case["k"]]
-        A = _g.pdag_matrix(_g.BIG_P, ch, und) if case["lab"] == "pdag" else _g.np_dag(_g.BIG_P, ch, case["lab"])
-        return check_graph(_g.BIG_P, ch, und, A)[0]
+        name, P_, ch, und = ([(n_, _g.BIG_P, c_, u_) for n_, c_, u_ in _g.big_graphs()] + _g.path_graphs())[case["k"]]
+        A = _g.pdag_matrix(P_, ch, und) if case["lab"] == "pdag" else _g.np_dag(P_, ch, case["lab"])
+        return check_graph(P_, ch, und, A)[0]
     if kind == "wide":
         ch = _g.wide_targeted()[case["k"]]
         return check_graph(_g.WIDE_P, ch, [0] * _g.WIDE_P, _g.np_dag(_g.WIDE_P, ch, case["lab"]))[0]
@@ -238,7 +239,7 @@ def describe(tier, seed):
     return {
         "technique": "exhaustive small-scope enumeration of graphs and node subsets on the real code vs set-based definitions",
         "rule": "every PDAG with acyclic directed part p<=4 (int and float 0/1; + sparse 5-node PDAGs) and every DAG p<=4 (p=5 thorough) under "
-                "neg/cancel/generic/int weights and every +-1 sign assignment of the edges (p<=4); 7 graphs on 70 nodes whose edges sit on node indices >= 64 (collider, chains, fork, PDAGs with and without extension); wide graphs: every 10-node PDAG with <=2 edges and 80 targeted "
+                "neg/cancel/generic/int weights and every +-1 sign assignment of the edges (p<=4); 7 graphs on 70 nodes whose edges sit on node indices >= 64 (collider, chains, fork, PDAGs with and without extension) and 18 long paths (undirected / directed / mixed, natural and scrambled labels, 6, 7 and 11 nodes); wide graphs: every 10-node PDAG with <=2 edges and 80 targeted "
                 "colliders whose parents mix node indices below and above 8 (set iteration order); per graph: only_directed, only_undirected (entries preserved, sum = input), skeleton, "
                 "undirected_edges, directed_edges, edge_weights, vstructures, moral_graph, degrees, is_complete, and induced_subgraph / is_clique "
                 "for every node subset; non-trivial: >= 2 edges",
